@@ -465,6 +465,17 @@ func PathCount(f *ssa.Function, weight func(ssa.Instruction) int, skip func(*ssa
 
 // PathCountFrom counts from the start of block `from` (or just after instruction `after` if non-nil, which must be in `from`).
 func PathCountFrom(from *ssa.BasicBlock, after ssa.Instruction, weight func(ssa.Instruction) int, skip func(*ssa.BasicBlock) bool) (min, max int) {
+	return pathCount(from, after, weight, skip, true)
+}
+
+// PathCountIter is PathCountFrom without the loop penalty: it counts matches along
+// one traversal (used for "exactly once per loop iteration": start inside the body;
+// the traversal leaves through the loop exit to a return, re-entering no block).
+func PathCountIter(from *ssa.BasicBlock, after ssa.Instruction, weight func(ssa.Instruction) int, skip func(*ssa.BasicBlock) bool) (min, max int) {
+	return pathCount(from, after, weight, skip, false)
+}
+
+func pathCount(from *ssa.BasicBlock, after ssa.Instruction, weight func(ssa.Instruction) int, skip func(*ssa.BasicBlock) bool, loopPenalty bool) (min, max int) {
 	type mm struct{ min, max int }
 	memo := map[*ssa.BasicBlock]*mm{}
 	onStack := map[*ssa.BasicBlock]bool{}
@@ -477,7 +488,7 @@ func PathCountFrom(from *ssa.BasicBlock, after ssa.Instruction, weight func(ssa.
 		}
 		onStack[b] = true
 		w := 0
-		loop := InLoop(b)
+		loop := loopPenalty && InLoop(b)
 		isExit := false
 		for _, ins := range b.Instrs[start:] {
 			k := 0
